@@ -6,6 +6,7 @@ package main
 import (
 	"fmt"
 	"os"
+	"runtime"
 	"runtime/debug"
 	"sort"
 )
@@ -28,6 +29,17 @@ func main() {
 	if len(os.Args) < 2 {
 		usage()
 		os.Exit(2)
+	}
+	// One P: sync.Pool keeps a private slot per P, so with several Ps the pooled search
+	// state (and DFA cache) a call receives depends on which P the goroutine happens to run
+	// on; with history-dependent strategies the same corpus then gives different answers in
+	// different runs.  The race replay and the parallel sweeps keep all Ps.
+	switch os.Args[1] {
+	case "c06-race", "c15", "c07":
+	default:
+		if os.Getenv("VERIF_KEEP_PROCS") == "" {
+			runtime.GOMAXPROCS(1)
+		}
 	}
 	f, ok := registry[os.Args[1]]
 	if !ok {
